@@ -269,7 +269,8 @@ theorem freeCaches_spec {cfg : Cfg} {st : Bool} : ∀ (l : List Nat) {s : Mem}, 
   | blk :: rest, s, hc, h => by
     unfold freeCaches
     obtain ⟨cp, bl, g1, g2, g3⟩ := h blk List.mem_cons_self
-    simp only [g1]
+    have hcap : s.blockCap blk = bl.cap := by unfold Mem.blockCap; rw [g1]
+    rw [hcap]
     have c1 : Core cfg st (s.freeMem cfg (some blk) bl.cap) :=
       freeMem_core hc (fun b hb => by cases hb; exact ⟨bl, g1, by rw [g2]; exact g3⟩)
     have e1 := freeMem_ext cfg s (some blk) bl.cap
